@@ -693,3 +693,347 @@ Section Tree.
       exists l, l'. auto.
   Qed.
 End Tree.
+
+(* ------------------------------------------------------------------------------------------------ *)
+(* The nested layout on tree-shaped pointer tables                                                   *)
+(* ------------------------------------------------------------------------------------------------ *)
+Definition is_child (g : graph) (p c : N) : bool :=
+  match parents_of g c with [q] => N.eqb q p | _ => false end.
+
+Lemma is_child_true : forall g p c, is_child g p c = true <-> parents_of g c = [p].
+Proof.
+  intros g p c; unfold is_child. destruct (parents_of g c) as [|q [|q' t]]; split; try discriminate.
+  - intros H; apply N.eqb_eq in H; subst; reflexivity.
+  - intros H; inversion H; apply N.eqb_refl.
+Qed.
+
+Section SetChildren.
+  Variables (m : N) (c : list N).
+  Let repl := fun kv : N * list N => if N.eqb (fst kv) m then (m, c) else kv.
+
+  Lemma find_repl_other : forall st q, q <> m ->
+    find (fun kv => N.eqb (fst kv) q) (map repl st) = find (fun kv : N * list N => N.eqb (fst kv) q) st.
+  Proof.
+    induction st as [|[k v] st IH]; intros q Hq; simpl; [reflexivity|].
+    assert (Hrepl : repl (k, v) = if N.eqb k m then (m, c) else (k, v)) by reflexivity.
+    rewrite !Hrepl. destruct (N.eqb k m) eqn:Ekm; simpl.
+    - apply N.eqb_eq in Ekm; subst k.
+      assert (E : N.eqb m q = false) by (apply N.eqb_neq; congruence). rewrite E. apply IH; exact Hq.
+    - destruct (N.eqb k q); [reflexivity | apply IH; exact Hq].
+  Qed.
+
+  Lemma find_repl_same : forall st, existsb (fun kv : N * list N => N.eqb (fst kv) m) st = true ->
+    find (fun kv => N.eqb (fst kv) m) (map repl st) = Some (m, c).
+  Proof.
+    induction st as [|[k v] st IH]; simpl; [discriminate|].
+    assert (Hrepl : repl (k, v) = if N.eqb k m then (m, c) else (k, v)) by reflexivity.
+    rewrite !Hrepl. destruct (N.eqb k m) eqn:Ekm; simpl.
+    - rewrite N.eqb_refl. reflexivity.
+    - rewrite Ekm. exact IH.
+  Qed.
+
+  Lemma find_app_new : forall st q, existsb (fun kv : N * list N => N.eqb (fst kv) m) st = false ->
+    find (fun kv => N.eqb (fst kv) q) (st ++ [(m, c)])
+    = if N.eqb q m then Some (m, c) else find (fun kv : N * list N => N.eqb (fst kv) q) st.
+  Proof.
+    induction st as [|[k v] st IH]; intros q; simpl.
+    - intros _. rewrite (N.eqb_sym m q). destruct (N.eqb q m); reflexivity.
+    - destruct (N.eqb k m) eqn:Ekm; simpl; [discriminate|]. intros H.
+      destruct (N.eqb k q) eqn:Ekq.
+      + apply N.eqb_eq in Ekq; subst k. rewrite Ekm. reflexivity.
+      + apply IH; exact H.
+  Qed.
+
+  Lemma children_set_children : forall st q,
+    children (set_children st m c) q = if N.eqb q m then c else children st q.
+  Proof.
+    intros st q. unfold children, set_children.
+    destruct (existsb (fun kv => N.eqb (fst kv) m) st) eqn:Ex.
+    - destruct (N.eqb q m) eqn:Eq.
+      + apply N.eqb_eq in Eq; subst q. fold repl. rewrite find_repl_same by exact Ex. reflexivity.
+      + fold repl. rewrite find_repl_other by (apply N.eqb_neq; exact Eq). reflexivity.
+    - rewrite find_app_new by exact Ex. destruct (N.eqb q m); reflexivity.
+  Qed.
+End SetChildren.
+
+Lemma nested_step_root : forall g st r, parent_ptrs g r = [] -> has_root_ptr g r = true ->
+  nested_step g (Some st) r
+  = Some {| ns_roots := ns_roots st ++ [r]; ns_nested := ns_nested st; ns_inj := ns_inj st; ns_ix := ns_ix st |}.
+Proof. intros g st r H1 H2. unfold nested_step. rewrite H1, H2. reflexivity. Qed.
+
+Lemma nested_step_child : forall g st m p, parents_of g m = [p] -> has_root_ptr g m = false ->
+  nested_step g (Some st) m
+  = Some {| ns_roots := ns_roots st;
+            ns_nested := set_children (ns_nested st) p (children (ns_nested st) p ++ [m]);
+            ns_inj := ns_inj st; ns_ix := ns_ix st |}.
+Proof.
+  intros g st m p Hp Hr. unfold nested_step. destruct (parent_ptrs g m) eqn:E.
+  - unfold parents_of in Hp. rewrite E in Hp. discriminate.
+  - rewrite Hr, Hp. reflexivity.
+Qed.
+
+Lemma fold_nested_none : forall g l, fold_left (nested_step g) l None = None.
+Proof. induction l; simpl; auto. Qed.
+
+Lemma parents_of_root : forall g r, is_root g r -> parents_of g r = [].
+Proof. intros g r H. unfold parents_of, is_root in *. rewrite H. reflexivity. Qed.
+
+Lemma nested_fold : forall g r, tree_table g r -> forall l st, incl l (map m_idx (ms g)) ->
+  exists st', fold_left (nested_step g) l (Some st) = Some st'
+    /\ ns_roots st' = ns_roots st ++ filter (N.eqb r) l
+    /\ ns_inj st' = ns_inj st
+    /\ forall p, children (ns_nested st') p = children (ns_nested st) p ++ filter (is_child g p) l.
+Proof.
+  intros g r [HND [Hr [Hroot [Hrp [Hch _]]]]].
+  induction l as [|a l IH]; intros st Hincl.
+  - exists st. simpl. rewrite app_nil_r. repeat split; auto. intros; now rewrite app_nil_r.
+  - cbn [fold_left].
+    assert (Hincl' : incl l (map m_idx (ms g))) by (intros x Hx; apply Hincl; right; exact Hx).
+    destruct (N.eq_dec a r) as [->|Hne].
+    + rewrite nested_step_root by assumption.
+      match goal with |- context [fold_left _ l (Some ?s)] => destruct (IH s Hincl') as [st' [H1 [H2 [H3 H4]]]] end. cbn [ns_roots ns_nested ns_inj ns_ix] in *.
+      exists st'. split; [exact H1 | split; [|split; [exact H3|]]].
+      * rewrite H2. cbn [filter]. rewrite N.eqb_refl, <- app_assoc. reflexivity.
+      * intros p. rewrite H4. cbn [filter].
+        assert (E : is_child g p r = false) by (unfold is_child; now rewrite parents_of_root).
+        rewrite E. reflexivity.
+    + destruct (Hch a (Hincl a (or_introl eq_refl)) Hne) as [Hnr [pa [Hpa _]]].
+      rewrite (nested_step_child g st a pa Hpa Hnr).
+      match goal with |- context [fold_left _ l (Some ?s)] => destruct (IH s Hincl') as [st' [H1 [H2 [H3 H4]]]] end. cbn [ns_roots ns_nested ns_inj ns_ix] in *.
+      exists st'. split; [exact H1 | split; [|split; [exact H3|]]].
+      * rewrite H2. cbn [filter]. assert (E : N.eqb r a = false) by (apply N.eqb_neq; congruence).
+        rewrite E. reflexivity.
+      * intros p. rewrite H4, children_set_children. cbn [filter].
+        unfold is_child at 2. rewrite Hpa. rewrite (N.eqb_sym pa p).
+        destruct (N.eqb p pa) eqn:Ep.
+        -- apply N.eqb_eq in Ep; subst pa. rewrite <- app_assoc. reflexivity.
+        -- reflexivity.
+Qed.
+
+Lemma filter_eqb_NoDup : forall (r : N) l, NoDup l -> In r l -> filter (N.eqb r) l = [r].
+Proof.
+  intros r; induction l as [|a l IH]; intros HN Hin; [destruct Hin|].
+  inversion HN as [|? ? Hna HNl]; subst. cbn [filter]. destruct (N.eqb r a) eqn:E.
+  - apply N.eqb_eq in E; subst a. f_equal.
+    clear IH HN Hin HNl. induction l as [|b l IH]; [reflexivity|]. cbn [filter].
+    destruct (N.eqb r b) eqn:Eb; [apply N.eqb_eq in Eb; subst; exfalso; apply Hna; left; reflexivity|].
+    apply IH. intros H; apply Hna; right; exact H.
+  - apply IH; [exact HNl|]. destruct Hin as [->|Hin]; [rewrite N.eqb_refl in E; discriminate | exact Hin].
+Qed.
+
+Lemma build_tree_T : forall L isch nested, (forall p, children nested p = kids L isch p) ->
+  forall f m, build_tree f nested m = T L isch f m.
+Proof.
+  intros L isch nested H; induction f as [|f IH]; intros m; simpl; [reflexivity|].
+  f_equal. rewrite H. apply map_ext. exact IH.
+Qed.
+
+(* the tree that compose_models builds on a tree-shaped pointer table *)
+Definition nested_tree (g : graph) (r : N) : node :=
+  T (map m_idx (ms g)) (is_child g) (length (map m_idx (ms g))) r.
+
+Lemma compose_nested_tree : forall g r, tree_table g r -> compose_nested g = Some ([nested_tree g r], []).
+Proof.
+  intros g r Ht. unfold compose_nested.
+  destruct (nested_fold g r Ht (map m_idx (ms g))
+              {| ns_roots := []; ns_nested := []; ns_inj := []; ns_ix := 0 |} (incl_refl _))
+    as [st' [H1 [H2 [H3 H4]]]].
+  rewrite H1. cbn [ns_roots ns_nested ns_inj ns_ix] in *.
+  destruct Ht as [HND [Hr _]].
+  rewrite H2, H3. cbn [app]. rewrite filter_eqb_NoDup by assumption. cbn [map].
+  unfold nested_tree. rewrite map_length.
+  rewrite (build_tree_T (map m_idx (ms g)) (is_child g)); [reflexivity|].
+  intros p. rewrite H4. reflexivity.
+Qed.
+
+Lemma tree_table_hyps : forall g r, tree_table g r ->
+  let L := map m_idx (ms g) in
+  exists depth : N -> nat,
+    NoDup L /\ In r L /\ depth r = 0
+    /\ (forall x, In x L -> x <> r -> exists p, is_child g p x = true)
+    /\ (forall p x, In x L -> is_child g p x = true -> In p L)
+    /\ (forall p q x, In x L -> is_child g p x = true -> is_child g q x = true -> p = q)
+    /\ (forall p x, In x L -> is_child g p x = true -> depth x = S (depth p)).
+Proof.
+  intros g r [HND [Hr [Hroot [Hrp [Hch [depth [Hd0 Hdep]]]]]]] L. exists depth.
+  assert (Hnr : forall p x, is_child g p x = true -> x <> r).
+  { intros p x H ->. apply is_child_true in H. rewrite parents_of_root in H by exact Hroot. discriminate. }
+  repeat split; auto.
+  - intros x Hx Hne. destruct (Hch x Hx Hne) as [_ [p [Hp _]]]. exists p. now apply is_child_true.
+  - intros p x Hx Hi. destruct (Hch x Hx (Hnr _ _ Hi)) as [_ [p' [Hp' [Hin _]]]].
+    apply is_child_true in Hi. rewrite Hi in Hp'. inversion Hp'; subst. exact Hin.
+  - intros p q x _ H1 H2. apply is_child_true in H1, H2. rewrite H1 in H2. now inversion H2.
+  - intros p x Hx Hi. apply Hdep; [exact Hx | eapply Hnr; eauto | now apply is_child_true].
+Qed.
+
+(* N1 *)
+Theorem nested_perm_tree : forall g r, tree_table g r ->
+  exists t, compose_nested g = Some ([t], []) /\ Permutation (flatten t) (map m_idx (ms g)).
+Proof.
+  intros g r Ht. exists (nested_tree g r). split; [apply compose_nested_tree; exact Ht|].
+  destruct (tree_table_hyps g r Ht) as [depth [H1 [H2 [H3 [H4 [H5 [H6 H7]]]]]]].
+  unfold nested_tree. eapply T_perm; eauto.
+Qed.
+
+Lemma compose_nested_inv : forall g r t, tree_table g r -> compose_nested g = Some ([t], []) -> t = nested_tree g r.
+Proof. intros g r t Ht H. rewrite (compose_nested_tree g r Ht) in H. now inversion H. Qed.
+
+(* N2.  The side condition [In c (map m_idx (ms g))] on the right is necessary: the pointer table may contain stale
+   pointers whose target is no longer registered (see Example stale_pointer_not_emitted below). *)
+Theorem nested_placement : forall g r t, tree_table g r -> compose_nested g = Some ([t], []) ->
+  forall p c, child_of t p c <-> (In c (map m_idx (ms g)) /\ parents_of g c = [p]).
+Proof.
+  intros g r t Ht H p c. rewrite (compose_nested_inv g r t Ht H).
+  destruct (tree_table_hyps g r Ht) as [depth [H1 [H2 [H3 [H4 [H5 [H6 H7]]]]]]].
+  rewrite <- is_child_true. unfold nested_tree. eapply T_child_of; eauto.
+Qed.
+
+(* every node of the nested layout carries exactly the models whose single parent it is, in registry order *)
+Theorem nested_children_order : forall g r t, tree_table g r -> compose_nested g = Some ([t], []) ->
+  forall p l, subtree t (Node p l) -> map label l = filter (is_child g p) (map m_idx (ms g)).
+Proof.
+  intros g r t Ht H p l Hs. rewrite (compose_nested_inv g r t Ht H) in Hs.
+  destruct (tree_table_hyps g r Ht) as [depth [H1 [H2 [H3 [H4 [H5 [H6 H7]]]]]]].
+  unfold nested_tree in Hs. eapply T_subtree_order in Hs; eauto.
+Qed.
+
+Theorem nested_root_label : forall g r t, tree_table g r -> compose_nested g = Some ([t], []) -> label t = r.
+Proof. intros g r t Ht H. rewrite (compose_nested_inv g r t Ht H). unfold nested_tree. apply label_T. Qed.
+
+(* a class nested inside p is referenced from a field of p: there is a pointer object (c, Some p) *)
+Lemma nodupN_acc_in : forall l acc x,
+  In x (fold_left (fun acc x => if memN x acc then acc else acc ++ [x]) l acc) -> In x acc \/ In x l.
+Proof.
+  induction l as [|a l IH]; intros acc x H; simpl in H; [auto|].
+  apply IH in H. destruct H as [H|H]; [|right; right; exact H].
+  destruct (memN a acc); [left; exact H|]. apply in_app_or in H.
+  destruct H as [H|[->|[]]]; [left; exact H | right; left; reflexivity].
+Qed.
+
+Lemma parents_of_ptr : forall g c p, In p (parents_of g c) ->
+  exists q, In q (ps g) /\ p_tgt q = c /\ p_par q = Some p.
+Proof.
+  intros g c p H. unfold parents_of, nodupN in H. apply nodupN_acc_in in H. destruct H as [[]|H].
+  unfold parent_ptrs in H. apply in_flat_map in H. destruct H as [q [Hq Hp]].
+  unfold ptrs_to in Hq. apply filter_In in Hq. destruct Hq as [Hq Ht]. apply N.eqb_eq in Ht.
+  exists q. split; [exact Hq | split; [exact Ht|]].
+  destruct (p_par q); [destruct Hp as [->|[]]; reflexivity | destruct Hp].
+Qed.
+
+Corollary nested_child_referenced : forall g r t, tree_table g r -> compose_nested g = Some ([t], []) ->
+  forall p c, child_of t p c -> exists q, In q (ps g) /\ p_tgt q = c /\ p_par q = Some p.
+Proof.
+  intros g r t Ht H p c Hc. apply (nested_placement g r t Ht H) in Hc. destruct Hc as [_ Hc].
+  apply parents_of_ptr. rewrite Hc. left; reflexivity.
+Qed.
+
+(* N3 *)
+Theorem same_models : forall g r l t, tree_table g r -> compose_flat g = Some l -> compose_nested g = Some ([t], []) ->
+  Permutation (flat_map flatten l) (flatten t).
+Proof.
+  intros g r l t Ht Hf Hn.
+  destruct (nested_perm_tree g r Ht) as [t' [Hn' Hp]]. rewrite Hn in Hn'. inversion Hn'; subst t'.
+  apply flat_perm in Hf. destruct Hf as [Hf _].
+  eapply perm_trans; [exact Hf | apply Permutation_sym; exact Hp].
+Qed.
+
+(* a tree-shaped table never raises in either layout, and the flat layout starts with the root *)
+Lemma tree_every_model_pointed : forall g r, tree_table g r -> every_model_pointed g.
+Proof.
+  intros g r [HND [Hr [Hroot [Hrp [Hch _]]]]] m Hm E. apply ptrs_empty_iff in E. destruct E as [E1 E2].
+  destruct (N.eq_dec m r) as [->|Hne]; [congruence|].
+  destruct (Hch m Hm Hne) as [_ [p [Hp _]]]. unfold parents_of in Hp. rewrite E1 in Hp. discriminate.
+Qed.
+
+Theorem tree_flat_root_first : forall g r, tree_table g r ->
+  exists rest, compose_flat g = Some (Node r [] :: rest).
+Proof.
+  intros g r Ht. destruct (compose_flat g) as [l|] eqn:E.
+  - destruct (flat_root_first g l r E) as [rest ->].
+    + destruct Ht as [_ [Hr _]]; exact Hr.
+    + destruct Ht as [_ [_ [Hroot _]]]; exact Hroot.
+    + intros m Hm Hroot. destruct Ht as [_ [_ [_ [_ [Hch _]]]]].
+      destruct (N.eq_dec m r) as [|Hne]; [assumption|].
+      destruct (Hch m Hm Hne) as [_ [p [Hp _]]]. rewrite parents_of_root in Hp by exact Hroot. discriminate.
+    + eexists; reflexivity.
+  - exfalso. revert E. apply flat_total. eapply tree_every_model_pointed; eauto.
+Qed.
+
+(* ------------------------------------------------------------------------------------------------ *)
+(* Sanity tests on concrete graphs (root 0 with children 1, 2 and grandchild 3 under 1)              *)
+(* ------------------------------------------------------------------------------------------------ *)
+Module Examples.
+  Definition mk (i : N) : model := {| m_idx := i; m_fields := []; m_name := None; m_gen := None |}.
+  Definition pt (x : N * option N) : ptr := {| p_tgt := fst x; p_par := snd x; p_fld := None |}.
+  Definition G (l : list N) (p : list (N * option N)) : graph := {| ms := map mk l; ps := map pt p; nxt := 100 |}.
+  Definition T1 : list (N * option N) := [(0, None); (1, Some 0); (2, Some 0); (3, Some 1)]%N.
+  (* the same tree with duplicated pointers (several fields / list items referencing the same class) *)
+  Definition T2 : list (N * option N) :=
+    [(1, Some 0); (0, None); (1, Some 0); (2, Some 1); (2, Some 1); (3, Some 2); (0, None)]%N.
+
+  (* registry order with the root last (merged roots are re-registered at the end) *)
+  Example flat_root_last : compose_flat (G [1; 2; 3; 0]%N T1) = Some [Node 0 []; Node 1 []; Node 3 []; Node 2 []]%N.
+  Proof. vm_compute. reflexivity. Qed.
+  Example nested_root_last :
+    compose_nested (G [1; 2; 3; 0]%N T1) = Some ([Node 0 [Node 1 [Node 3 []]; Node 2 []]]%N, []).
+  Proof. vm_compute. reflexivity. Qed.
+  (* child processed before its parent, parent before the root: nothing is lost *)
+  Example nested_reverse_order :
+    compose_nested (G [3; 2; 1; 0]%N T1) = Some ([Node 0 [Node 2 []; Node 1 [Node 3 []]]]%N, []).
+  Proof. vm_compute. reflexivity. Qed.
+  Example flat_reverse_order : compose_flat (G [3; 2; 1; 0]%N T1) = Some [Node 0 []; Node 3 []; Node 2 []; Node 1 []]%N.
+  Proof. vm_compute. reflexivity. Qed.
+  (* a chain as long as the registry: the fuel of build_tree is exactly sufficient *)
+  Example nested_chain : compose_nested (G [3; 2; 1; 0]%N T2) = Some ([Node 0 [Node 1 [Node 2 [Node 3 []]]]]%N, []).
+  Proof. vm_compute. reflexivity. Qed.
+  (* the exception: a registered model without pointers *)
+  Example flat_no_pointers : compose_flat (G [0; 1]%N [(0, None)]%N) = None.
+  Proof. vm_compute. reflexivity. Qed.
+
+  (* tree_table is satisfiable (non-vacuity of N1-N3) *)
+  Example tree_table_T1 : tree_table (G [1; 2; 3; 0]%N T1) 0%N.
+  Proof.
+    unfold tree_table. split; [|split; [|split; [|split; [|split]]]].
+    - vm_compute. repeat constructor; simpl; intuition discriminate.
+    - vm_compute. auto.
+    - vm_compute. reflexivity.
+    - vm_compute. reflexivity.
+    - intros m Hm Hne. vm_compute in Hm.
+      destruct Hm as [<-|[<-|[<-|[<-|[]]]]]; try congruence;
+        (split; [vm_compute; reflexivity|]); [exists 0%N | exists 0%N | exists 1%N];
+        (split; [vm_compute; reflexivity | split; [vm_compute; auto | discriminate]]).
+    - exists (fun m : N => match m with 1%N => 1 | 2%N => 1 | 3%N => 2 | _ => 0 end).
+      split; [reflexivity|]. intros m p Hm Hne Hp. vm_compute in Hm.
+      destruct Hm as [<-|[<-|[<-|[<-|[]]]]]; try congruence; vm_compute in Hp; inversion Hp; reflexivity.
+  Qed.
+
+  (* Counterexample to N2 without the side condition [In c (map m_idx (ms g))]: the pointer table still holds a stale
+     pointer to the unregistered model 5 whose only parent is 0, the table is a tree rooted at 0, but 5 is (rightly)
+     not emitted. *)
+  Example stale_pointer_not_emitted :
+    let g := G [0]%N [(0, None); (5, Some 0)]%N in
+    parents_of g 5%N = [0%N] /\ compose_nested g = Some ([Node 0%N []], []) /\ ~ In 5%N (map m_idx (ms g)).
+  Proof. vm_compute. split; [reflexivity | split; [reflexivity | intros [H|[]]; discriminate]]. Qed.
+
+  (* Without a unique root the first element of the flat layout need not be the first registered root ... but it is
+     still a model without parent pointers here: two roots 0 and 2, 1 below 0. *)
+  Example flat_two_roots :
+    compose_flat (G [1; 0; 2]%N [(0, None); (2, None); (1, Some 0)]%N) = Some [Node 0 []; Node 2 []; Node 1 []]%N.
+  Proof. vm_compute. reflexivity. Qed.
+End Examples.
+
+(* ------------------------------------------------------------------------------------------------ *)
+Print Assumptions flat_perm.
+Print Assumptions flat_exactly_once.
+Print Assumptions flat_none_iff.
+Print Assumptions flat_total.
+Print Assumptions flat_total_iff.
+Print Assumptions flat_root_first.
+Print Assumptions nested_perm_tree.
+Print Assumptions nested_placement.
+Print Assumptions nested_children_order.
+Print Assumptions nested_child_referenced.
+Print Assumptions nested_root_label.
+Print Assumptions same_models.
+Print Assumptions tree_flat_root_first.
+Print Assumptions Examples.tree_table_T1.
